@@ -31,6 +31,12 @@ C13 extensions (generated only with Gen(ext=True); C14 keeps the statement kinds
     any statement with "reg": name     the operation is called through the registered-action wrapper a.<name>.<method>(...)
     program flag "xr": true            source values are xarray DataArrays (internal dims i0, i1, ... with coordinates): the
                                        xarray backend is dispatched
+Second audit (ext only):
+    named / reduce / flatten with "dim": null        the argument is OMITTED in the call (a.mean(), a.reduce(f), a.flatten());
+                                                     "dim": "" passes the signature default explicitly
+    arith pow with "scalar" in {0, 1, 2, 3, 4, -1}   and 0.5 on float values (never an integral float: the tie writes 2.0 as "2.0")
+    program flag "dtype": "float32"|"int64"|"int32"  inputs of that NumPy type (plain arrays then run in float mode)
+    program flag "family": "long-dimension"          one dimension of 8..12 elements, first reduced in batches of 2 or 3
 
 Nothing here depends on the Lean model.
 """
@@ -229,19 +235,22 @@ def exec_stmt(st, env):
     if op == "reduce":
         y = st.get("yields")
         rp = _shared_payload(st, env, CUSTOM[st["fn"]]) if "share" in st else CUSTOM[st["fn"]]
-        return a.reduce(rp, yields=(y[0], list(y[1])) if y else None, dim=st["dim"],
-                        batch_size=st["bs"], keep_dim=st["keep"])
+        dkw = {} if st["dim"] is None else {"dim": st["dim"]}      # "dim": null = the argument is OMITTED (a.reduce(f))
+        return a.reduce(rp, yields=(y[0], list(y[1])) if y else None, batch_size=st["bs"], keep_dim=st["keep"], **dkw)
     if op == "named":
         kw = dict(st.get("kw") or [])
+        dkw = {} if st["dim"] is None else {"dim": st["dim"]}      # "dim": null = the argument is OMITTED (a.mean())
         if not kw:      # as a user writes it: a.sum("d") — the DEFAULT backend_kwargs of the method (one object for all calls)
-            return getattr(a, st["name"])(dim=st["dim"], batch_size=st["bs"], keep_dim=st["keep"])
-        return getattr(a, st["name"])(dim=st["dim"], batch_size=st["bs"], keep_dim=st["keep"], backend_kwargs=kw)
+            return getattr(a, st["name"])(batch_size=st["bs"], keep_dim=st["keep"], **dkw)
+        return getattr(a, st["name"])(batch_size=st["bs"], keep_dim=st["keep"], backend_kwargs=kw, **dkw)
     bkw = {"backend_kwargs": dict(st["kw"])} if st.get("kw") and op in ("stack", "concatenate", "flatten", "expand") else {}
     if op == "stack":
         return a.stack(st["dim"], batch_size=st["bs"], keep_dim=st["keep"], axis=st["axis"], **bkw)
     if op == "concatenate":
         return a.concatenate(st["dim"], batch_size=st["bs"], keep_dim=st["keep"], **bkw)
     if op == "flatten":
+        if st["dim"] is None:
+            return a.flatten(axis=st["axis"], **bkw)
         return a.flatten(dim=st["dim"], axis=st["axis"], **bkw)
     if op == "alias":
         return getattr(a, st["how"])({})
@@ -372,20 +381,29 @@ def _strict_label(x, dim=None):
     return s
 
 
-def _canon_static(x):
+def _canon_static(x, strict=False):
+    """strict (C13): an integral FLOAT is not the int of the same value — 2.0 is written "2.0", 2 is "2" (the model's numbers are
+    the ints and the non-integral rationals the program / the rewrites write down: x ** 2.0 on Fractions is a float computation);
+    NumPy scalars are not unwrapped to Python numbers silently either"""
     if isinstance(x, np.generic):
+        if strict:
+            return "?" + type(x).__name__ + ":" + str(x)
         x = x.item()
     if isinstance(x, bool):
         return "b" + str(x)
     if isinstance(x, int):
         return str(x)
     if isinstance(x, float):
+        if x != x or x in (float("inf"), float("-inf")):
+            return "?float:" + repr(x)
         f = Fraction(x)
-        return str(f.numerator) if f.denominator == 1 else f"{f.numerator}/{f.denominator}"
+        if f.denominator == 1:
+            return str(f.numerator) + (".0" if strict else "")
+        return f"{f.numerator}/{f.denominator}"
     if isinstance(x, str):
         return "'" + x + "'"
     if isinstance(x, (list, tuple)):
-        return "[" + ",".join(_canon_static(y) for y in x) + "]"
+        return "[" + ",".join(_canon_static(y, strict) for y in x) + "]"
     return "?" + type(x).__name__
 
 
@@ -396,8 +414,9 @@ def _fname(func):
 class Unfolder:
     """Unfolds real fluent nodes into canonical expression strings (memoised per node object)."""
 
-    def __init__(self):
+    def __init__(self, strict=False):
         self.memo = {}
+        self.strict = strict
 
     def node(self, n):
         key = id(n)
@@ -413,8 +432,8 @@ class Unfolder:
                 if isinstance(a, str) and a in n.inputs:
                     targs.append("$" + a[len("input"):])
                 else:
-                    targs.append(_canon_static(a))
-            kw = ",".join(f"{k}={_canon_static(v)}" for k, v in kwargs.items())
+                    targs.append(_canon_static(a, self.strict))
+            kw = ",".join(f"{k}={_canon_static(v, self.strict)}" for k, v in kwargs.items())
             # inputs in input-name order input0, input1, ... (the order Node() was given them)
             order = sorted(names, key=lambda s: int(s[len("input"):]) if s.startswith("input") and s[5:].isdigit() else 1 << 30)
             kids = ",".join(self.ref(n.inputs[i]) for i in order)
@@ -491,15 +510,16 @@ def source_value(prog, i):
     shape = tuple(prog.get("internal", []))
     seed = prog.get("vseed", 0)
     n = int(np.prod(shape)) if shape else 1
-    exact = not (prog.get("float") or prog.get("xr"))
+    exact = not (prog.get("float") or prog.get("xr") or prog.get("dtype"))
     vals = [_elem(seed, i * n + j, exact) for j in range(n)]
+    dtype = np.dtype(prog.get("dtype") or "float64")     # "dtype": float32 / int64 / int32 inputs (10-bit noise: exact in float32)
     if prog.get("xr"):
         import xarray as xr
         names = internal_names(prog)
-        return xr.DataArray(np.array(vals, dtype=float).reshape(shape), dims=names,
+        return xr.DataArray(np.array(vals, dtype=dtype).reshape(shape), dims=names,
                             coords={nm: [INTERNAL_COORD0 + 10 * k + j for j in range(shape[k])] for k, nm in enumerate(names)})
-    if prog.get("float"):
-        return np.array(vals, dtype=float).reshape(shape)
+    if prog.get("float") or prog.get("dtype"):
+        return np.array(vals, dtype=dtype).reshape(shape)
     arr = np.empty(n, dtype=object)
     for j, v in enumerate(vals):
         arr[j] = Fraction(v)
@@ -554,17 +574,26 @@ class Interp:
         data = action.nodes.data
         raw = [self.ref(data[idx]) for idx in np.ndindex(*data.shape)] if data.shape else [self.ref(data.item())]
         names = None
+        self.last_icoords = None
         if raw and all(type(o).__name__ == "DataArray" and hasattr(o, "dims") for o in raw):
             dimsets = {tuple(map(str, o.dims)) for o in raw}
             if len(dimsets) != 1:
                 raise ValueError(f"nodes of one action evaluate to different internal dimensions {sorted(dimsets)}")
             names = list(dimsets.pop())
+            # the coordinate labels of the internal dimensions (None = the dimension has no coordinate), per node; the oracle
+            # compares them with the labels the direct computation has — all nodes of one action must agree
+            per_node = [{nm: ([_strict_label(x) for x in o.coords[nm].values.tolist()] if nm in o.coords else None) for nm in names}
+                        for o in raw]
+            self.last_icoords = per_node[0] if all(c == per_node[0] for c in per_node) else ("differ", per_node)
             raw = [o.values for o in raw]
         out = [np.asarray(o) for o in raw]
         shapes = {o.shape for o in out}
         if len(shapes) != 1:
             raise ValueError(f"nodes of one action evaluate to different internal shapes {sorted(shapes)}")
-        arr = np.empty((len(out),) + out[0].shape, dtype=out[0].dtype)
+        # the nodes of one action may evaluate to different dtypes (an int source joined with a float mean): the common type, as
+        # NumPy gives the array the reference stacks them into — never the first node's (floats would be truncated)
+        dt = object if any(o.dtype == object for o in out) else np.result_type(*[o.dtype for o in out])
+        arr = np.empty((len(out),) + out[0].shape, dtype=dt)
         for i, o in enumerate(out):
             arr[i] = o
         return arr.reshape(tuple(data.shape) + out[0].shape), names
@@ -643,9 +672,9 @@ def _np(f, *args, **kw):
 def _wsum(data, ax):
     n = data.shape[ax]
     w = np.arange(1, n + 1).reshape([n if i == ax else 1 for i in range(data.ndim)])
-    if data.dtype == object:
-        w = w.astype(object)
-    return (data * w).sum(axis=ax)
+    # the weights are Python ints in the user's function: they take the dtype of the data (no promotion to int64 / float64)
+    w = w.astype(data.dtype)
+    return (data * w).sum(axis=ax, dtype=None if data.dtype == object else data.dtype)
 
 
 def _label_pos(labels, v):
@@ -761,7 +790,11 @@ def _ref_stmt(st, env, prog):
         raise RefUndefined("operand undefined")
     dim = st.get("dim")
     if op in ("reduce", "named", "stack", "concatenate", "flatten"):
-        if dim == "":
+        if dim is None and op in ("stack", "concatenate"):
+            raise RefUndefined("stack / concatenate have no default dimension")
+        if dim == "" or dim is None:
+            # the signature default of reduce / sum / prod / min / max / mean / std / flatten is dim="": the FIRST dimension of the
+            # node array (written here from the signature and the convention of the API, not read from the code)
             if not a.dims:
                 raise RefUndefined("no dims")
             dim = a.dims[0]
@@ -784,7 +817,7 @@ def _ref_stmt(st, env, prog):
         # one payload per node: node idx gets affine(k[idx]) — NumPy: data * K + 1 with K shaped like the node array
         if tuple(st["shape"]) != a.data.shape[:a.nnode]:
             raise RefUndefined("payload array shape differs from the node array shape")
-        ks = np.array(st["ks"], dtype=object if a.data.dtype == object else float).reshape(tuple(st["shape"]) + (1,) * len(a.internal))
+        ks = np.array(st["ks"], dtype=a.data.dtype).reshape(tuple(st["shape"]) + (1,) * len(a.internal))
         return a.like(a.dims, a.labels, a.data * ks + 1)
     if op in ("reduce", "named"):
         ax = a.ax(dim)
@@ -1149,24 +1182,43 @@ def oracle_stmt(prog, k, real, ref, interp, scale=1.0):
             return ("coords", f"statement {k} {st}: coordinate {d} = {got}, documented {want}")
     try:
         got, inames = interp.values(real)
-    except ZeroDivisionError:
-        return None
     except Exception as e:
+        # the direct computation has a value (a division by an exact zero there makes the reference undefined, see `_np`):
+        # ANY exception while evaluating the graph, ZeroDivisionError included, is a disagreement
         return ("eval-raises", f"statement {k} {st}: evaluating the graph raised {type(e).__name__}: {str(e)[:120]}")
     if (inames is None) != (ref.idims is None) or (inames is not None and inames != ref.idims):
         return ("internal-dims", f"statement {k} {st}: the values have internal dimensions {inames}, the direct computation {ref.idims}")
+    if inames is not None and ref.icoords is not None:
+        ic = getattr(interp, "last_icoords", None)
+        if isinstance(ic, tuple):
+            return ("internal-coords", f"statement {k} {st}: the nodes of one action carry different internal coordinates {ic[1][:3]}")
+        wantc = {nm: ([_strict_label(x) for x in ref.icoords[nm]] if nm in ref.icoords else None) for nm in ref.idims}
+        if ic is not None and ic != wantc:
+            bad = next(nm for nm in ref.idims if ic.get(nm) != wantc.get(nm))
+            return ("internal-coords", f"statement {k} {st}: internal dimension {bad} has the coordinate {ic.get(bad)}, the direct "
+                    f"computation on the labelled source arrays gives {wantc.get(bad)}")
     want = ref.aligned(dims)
     if got.shape != want.shape:
         return ("value-shape", f"statement {k} {st}: value shape {got.shape}, NumPy {want.shape}")
     if got.dtype == object or want.dtype == object:
+        # exact programs: Fractions on both sides, compared with ==; a float among the real values is an inexact computation
+        # (e.g. x ** 2.0 instead of x ** 2) and is reported, never waved through with a tolerance
         try:
             same = bool(np.all(got == want))
-            if not same and any(isinstance(x, float) for x in got.flat):
-                same = _allclose(got, want, scale)
         except Exception:
             same = False
+        if same and any(isinstance(x, (float, np.floating)) for x in got.flat) and not any(isinstance(x, (float, np.floating)) for x in want.flat):
+            return ("value-inexact", f"statement {k} {st}: the graph evaluates to floats where the direct computation on exact "
+                    f"rationals stays exact (first: {next(x for x in got.flat if isinstance(x, (float, np.floating)))!r})")
     else:
-        same = _allclose(got, want, scale)
+        if prog.get("dtype") in (None, "float64") and got.dtype.kind == "f" and want.dtype.kind == "f" and got.dtype.itemsize < want.dtype.itemsize:
+            # double-precision inputs: every NumPy result is float64, so is every node's value — a narrower float is a downcast
+            # inside the graph whose error (1e-7 relative) lies below the tolerance. (On float32 / integer inputs the nodes of
+            # one action may legitimately have narrower types than the ONE array the reference stacks them into — an int64
+            # source joined with a float64 mean — so there the dtype is not judged; a wrong integer computation shows in the values.)
+            return ("value-precision", f"statement {k} {st}: the values have dtype {got.dtype}, the direct NumPy computation on the "
+                    f"same double-precision inputs {want.dtype} (precision lost)")
+        same = _allclose(got, want, scale, f32=(got.dtype.itemsize <= 4 or want.dtype.itemsize <= 4) and want.dtype.kind == "f")
     if not same:
         bad = next((idx for idx in np.ndindex(*got.shape) if not _close(got[idx], want[idx], scale)), None)
         return ("value", f"statement {k} {st}: value at {bad} is {got[bad] if bad is not None else '?'}, NumPy gives {want[bad] if bad is not None else '?'}")
@@ -1189,10 +1241,13 @@ def _close(x, y, scale=1.0):
         return False
 
 
-def _allclose(got, want, scale=1.0):
+FLOAT32_RTOL = 2e-5  # single-precision inputs (a few programs): batched and direct summation round differently
+
+
+def _allclose(got, want, scale=1.0, f32=False):
     g = got.astype(float)
     w = want.astype(float)
-    ok = np.isclose(g, w, rtol=FLOAT_RTOL, atol=FLOAT_ATOL * scale, equal_nan=True) | (np.isnan(g) & (np.abs(w) <= 1e-4 * scale))
+    ok = np.isclose(g, w, rtol=FLOAT32_RTOL if f32 else FLOAT_RTOL, atol=FLOAT_ATOL * scale, equal_nan=True) | (np.isnan(g) & (np.abs(w) <= 1e-4 * scale))
     return bool(np.all(ok))
 
 
@@ -1299,6 +1354,17 @@ class Gen:
             if not internal:
                 self.prog["internal"] = rng.choice([[3], [2, 3]])
         self.xr = bool(self.prog.get("xr"))
+        if ext and rng.random() < (0.3 if self.xr else 0.06):
+            # a few programs on single-precision / integer inputs (the backends' dtype-dependent behaviour); plain arrays then
+            # run in float mode (NumPy arrays instead of Fractions)
+            self.prog["dtype"] = rng.choice(["float32", "float32", "int64", "int32"])
+            if not self.xr:
+                self.prog["float"] = True
+                if not internal:
+                    self.prog["internal"] = rng.choice([[3], [2, 2]])
+        # a few programs with ONE long dimension (8..12) that is first reduced in batches of 2 or 3: the batching loop of
+        # Action.reduce then runs 2-4 times (batch.0.<d>, batch.1.<d>, ...)
+        self.big = ext and rng.random() < 0.07
         self.max_size = 7 if ext else 5
         self.allow_float = allow_float
         self.env = []      # real results
@@ -1350,6 +1416,34 @@ class Gen:
                 break
         return [[f"d{i}", self.labels_for(s)] for i, s in enumerate(sizes)]
 
+    def big_dims(self):
+        """one dimension of size 8..12 at a random position, the others of size 1..3 (at most max_pos positions)"""
+        rng = self.rng
+        nd = rng.randint(1, 3)
+        big = rng.randint(8, 12)
+        while True:
+            sizes = [rng.randint(1, 3) for _ in range(nd)]
+            sizes[rng.randrange(nd)] = big
+            if int(np.prod(sizes)) <= self.max_pos:
+                break
+        return [[f"d{i}", self.labels_for(s)] for i, s in enumerate(sizes)]
+
+    def big_first_op(self, k):
+        """the long dimension reduced in batches of 2 or 3 (a named reduction, mean / std rewrites included, or the batchable
+        custom function): 2-4 rounds of batching"""
+        rng = self.rng
+        dims = self.dims_of(k)
+        d = max(dims, key=lambda x: len(x[1]))[0]
+        omit = dims[0][0] == d and rng.random() < 0.4
+        bs = rng.choice([2, 2, 3])
+        keep = rng.random() < 0.25
+        if rng.random() < 0.2:
+            return self.push({"op": "reduce", "a": k, "fn": "first", "dim": None if omit else d, "bs": bs, "keep": keep})
+        name = rng.choice(NAMED if self.allow_float else NAMED[:-1])
+        if name == "std":
+            self.prog["float"] = True
+        return self.push({"op": "named", "a": k, "name": name, "dim": None if omit else d, "bs": bs, "keep": keep, "kw": []})
+
     def dims_of(self, k):
         n = self.env[k].nodes
         out = []
@@ -1395,10 +1489,10 @@ class Gen:
                  "expand", "expand", "broadcast", "broadcast", "join", "join", "arith", "arith", "arith", "transform", "transform"]
         if self.ext:
             kinds += ["mapn", "selectn", "selectn", "arithx", "arithx", "arithx", "joinx", "unindexed", "unindexed", "expand", "expand",
-                      "repeat", "repeat", "repeat", "repeat"]
+                      "repeat", "repeat", "repeat", "repeat", "power", "power", "defaultdim", "defaultdim", "defaultdim"]
         kind = rng.choice(kinds)
         bad = rng.random() < 0.08     # deliberately invalid argument
-        if self.ext and kind in ("mapn", "selectn", "arithx", "joinx", "unindexed", "repeat"):
+        if self.ext and kind in ("mapn", "selectn", "arithx", "joinx", "unindexed", "repeat", "power", "defaultdim"):
             return self.op_ext(kind, k, dims, names, sizes, ind, bad)
         if kind in ("named", "reduce", "stack", "concatenate", "flatten", "select", "iselect") and not names:
             kind = "map"
@@ -1421,11 +1515,26 @@ class Gen:
             if name == "std":
                 self.prog["float"] = True
             kw = [["axis", 0]] if (rng.random() < 0.12 and n >= 2) else []
-            dd = "" if (rng.random() < 0.1 and names and names[0] == d) else ("zz" if bad else d)
+            dd = "zz" if bad else d
+            if self.ext and names and rng.random() < 0.22:
+                # the dimension is OMITTED (a.mean(), a.sum(batch_size=2)): the default is the first dimension, whichever d was drawn;
+                # now and then the default written out (dim="")
+                d = names[0]
+                n = sizes[d]
+                bs = rng.choice([0, 0, 1] + list(range(2, n + 3)))
+                dd = None if rng.random() < 0.8 else ""
+            elif rng.random() < 0.1 and names and names[0] == d:
+                dd = ""
             return self.push({"op": "named", "a": k, "name": name, "dim": dd, "bs": bs, "keep": keep, "kw": kw})
         if kind == "reduce":
             fn = rng.choice(["wsum", "first", "minmax"])
-            st = {"op": "reduce", "a": k, "fn": fn, "dim": d, "bs": 0, "keep": keep}
+            if self.ext and names and rng.random() < 0.2:
+                d = names[0]
+                n = sizes[d]
+                bs = rng.choice([0, 0, 1] + list(range(2, n + 3)))
+                st = {"op": "reduce", "a": k, "fn": fn, "dim": None, "bs": 0, "keep": keep}      # a.reduce(f): dim omitted
+            else:
+                st = {"op": "reduce", "a": k, "fn": fn, "dim": d, "bs": 0, "keep": keep}
             if fn == "first":
                 st["bs"] = bs
             elif fn == "wsum":
@@ -1451,6 +1560,8 @@ class Gen:
                 return self.push(self.with_backend_kw({"op": "flatten", "a": k, "dim": d, "axis": 0}, k, ind))
             return self.push(self.with_backend_kw({"op": "concatenate", "a": k, "dim": d, "bs": bs, "keep": keep}, k, ind))
         if kind == "flatten":
+            if self.ext and rng.random() < 0.2:
+                d = None        # a.flatten(): dim omitted, the first dimension
             return self.push(self.with_backend_kw({"op": "flatten", "a": k, "dim": d, "axis": rng.randint(0, ind) if ind else 0}, k, ind))
         if kind == "select":
             lab = dict(dims)[d]
@@ -1552,7 +1663,18 @@ class Gen:
         if kind == "arith":
             fn = rng.choice(["add", "subtract", "multiply", "divide", "pow"])
             if rng.random() < 0.45 or fn == "pow":
-                return self.push({"op": "arith", "a": k, "fn": fn, "scalar": 2 if fn == "pow" else rng.choice([2, 3, -1, 5])})
+                sc = 2 if fn == "pow" else rng.choice([2, 3, -1, 5])
+                if fn == "pow":
+                    # integer exponents 0, 1, 2, 3, 4, -1 (exact on Fractions); the float exponent 0.5 only on float values (C13 basic
+                    # vocabulary of C14: the exponent 2)
+                    sc = rng.choice([2, 2, 3, 3, 4, 0, 1, -1, 0.5]) if self.ext else 2
+                    if sc == 0.5:
+                        if self.xr or self.prog.get("float") or self.allow_float:
+                            if not self.xr:
+                                self.prog["float"] = True
+                        else:
+                            sc = 3
+                return self.push({"op": "arith", "a": k, "fn": fn, "scalar": sc})
             j = self.partner(k, relabel=rng.random() < 0.5)
             if j is None:
                 return self.op_map_fallback(k)
@@ -1675,6 +1797,41 @@ class Gen:
                 return self.push({"op": "arith", "a": x, "fn": rng.choice(["add", "subtract", "multiply", "divide"]), "b": y})
             dim = self.name("j") if rng.random() < 0.6 else [self.name("j"), self.labels_for(2, "str")]
             return self.push({"op": "join", "a": x, "b": y, "dim": dim, "match": rng.random() < 0.4})
+        if kind == "power":
+            # a.power(k): integer exponents (exact on Fractions), -1, and the float exponent 0.5 on float values
+            sc = rng.choice([0, 1, 3, 3, 4, 4, -1, -1, 2, 0.5])
+            if sc == 0.5 and not (self.xr or self.prog.get("float")):
+                if self.allow_float and rng.random() < 0.5:
+                    self.prog["float"] = True
+                else:
+                    sc = 3
+            return self.push({"op": "arith", "a": k, "fn": "pow", "scalar": sc})
+        if kind == "defaultdim":
+            # the reduced dimension is OMITTED on an array of >= 2 dimensions whose first dimension has >= 2 elements: a.mean(),
+            # a.std(batch_size=2), a.reduce(f), a.flatten() — the default must be the FIRST dimension
+            if len(names) < 2 or sizes[names[0]] < 2:
+                j = self.new_source([["d0", self.labels_for(rng.randint(2, 5))], ["d1", self.labels_for(rng.randint(2, 4))]] +
+                                    ([["d2", self.labels_for(rng.randint(1, 3))]] if rng.random() < 0.3 else []))
+                if isinstance(self.env[j], tuple):
+                    return j
+                k = j
+                dims = self.dims_of(k)
+                names = [d for d, _ in dims]
+                sizes = {d: len(l) for d, l in dims}
+            n = sizes[names[0]]
+            bs = rng.choice([0, 0, 1] + list(range(2, n + 2)))
+            keep = rng.random() < 0.3
+            r = rng.random()
+            if r < 0.75:
+                name = rng.choice(["mean", "mean", "std", "std", "sum", "prod", "min", "max"])
+                if name == "std" and not self.allow_float:
+                    name = "mean"
+                if name == "std":
+                    self.prog["float"] = True
+                return self.push({"op": "named", "a": k, "name": name, "dim": None, "bs": bs, "keep": keep, "kw": []})
+            if r < 0.9:
+                return self.push({"op": "reduce", "a": k, "fn": "first", "dim": None, "bs": bs, "keep": keep})
+            return self.push(self.with_backend_kw({"op": "flatten", "a": k, "dim": None, "axis": 0}, k, self.internal_ndim(k)))
         if kind == "repeat":
             # the SAME operation twice with DIFFERENT backend arguments (axis / backend_kwargs; the first of them mostly the method's
             # default), chained or side by side on one receiver: what the first call built must not depend on the second
@@ -1777,9 +1934,13 @@ class Gen:
 
     def generate(self):
         rng = self.rng
-        k = self.new_source(self.random_dims())
+        k = self.new_source(self.big_dims() if self.big else self.random_dims())
         nops = rng.randint(1, self.max_ops)
         cur = k
+        if self.big:
+            self.prog["family"] = "long-dimension"
+            cur = self.big_first_op(k)
+            nops -= 1
         for _ in range(nops):
             lv = self.live()
             if not lv:
